@@ -76,3 +76,27 @@ Print Assumptions C12_directionality_single_pass.
    (two trains whose only spike is on t_end; repaired by fix commit a855440) is a valid input *)
 Example C12_nonvacuous : valid 0 1 [1] /\ [1] <> (@nil R).
 Proof. split; [valid_tac | discriminate]. Qed.
+
+(* ---- executed instance (Q, extracted to OCaml and run against /repo) = the real-number functions
+   the theorems above are about: kernel-checked parametricity bridge (Bridge.v).  qL = map Q2R etc. ---- *)
+From Coq Require Import QArith Qreals.
+From PS Require Import Bridge.
+Local Close Scope Q_scope.
+Theorem C12_exec_get_tau_cy_transfer : forall (c1 c2 : option ctx) (lim mrts : Q), Q2R (get_tau_cy QOps c1 c2 lim mrts) = get_tau_cy ROps (qCtx c1) (qCtx c2) (Q2R lim) (Q2R mrts).
+Proof. exact get_tau_cy_transfer. Qed.
+Print Assumptions C12_exec_get_tau_cy_transfer.
+Theorem C12_exec_isi_profile_cy_transfer : forall (s1 s2 : list Q) (ts te m : Q), qLL (isi_profile_cy QOps s1 s2 ts te m) = isi_profile_cy ROps (qL s1) (qL s2) (Q2R ts) (Q2R te) (Q2R m).
+Proof. exact isi_profile_cy_transfer. Qed.
+Print Assumptions C12_exec_isi_profile_cy_transfer.
+Theorem C12_exec_spike_profile_cy_transfer : forall (t1 t2 : list Q) (ts te m : Q) (ri : bool), qLLL (spike_profile_cy QOps t1 t2 ts te m ri) = spike_profile_cy ROps (qL t1) (qL t2) (Q2R ts) (Q2R te) (Q2R m) ri.
+Proof. exact spike_profile_cy_transfer. Qed.
+Print Assumptions C12_exec_spike_profile_cy_transfer.
+Theorem C12_exec_coinc_value_kernel_cy_transfer : forall (s1 s2 : list Q) (ts te mt mrts : Q), q2 (coinc_value_kernel_cy QOps s1 s2 ts te mt mrts) = coinc_value_kernel_cy ROps (qL s1) (qL s2) (Q2R ts) (Q2R te) (Q2R mt) (Q2R mrts).
+Proof. exact coinc_value_kernel_cy_transfer. Qed.
+Print Assumptions C12_exec_coinc_value_kernel_cy_transfer.
+Theorem C12_exec_order_value_kernel_cy_transfer : forall (s1 s2 : list Q) (ts te mt mrts : Q), q2 (order_value_kernel_cy QOps s1 s2 ts te mt mrts) = order_value_kernel_cy ROps (qL s1) (qL s2) (Q2R ts) (Q2R te) (Q2R mt) (Q2R mrts).
+Proof. exact order_value_kernel_cy_transfer. Qed.
+Print Assumptions C12_exec_order_value_kernel_cy_transfer.
+Theorem C12_exec_dir_value_kernel_cy_transfer : forall (s1 s2 : list Q) (ts te mt mrts : Q), Q2R (dir_value_kernel_cy QOps s1 s2 ts te mt mrts) = dir_value_kernel_cy ROps (qL s1) (qL s2) (Q2R ts) (Q2R te) (Q2R mt) (Q2R mrts).
+Proof. exact dir_value_kernel_cy_transfer. Qed.
+Print Assumptions C12_exec_dir_value_kernel_cy_transfer.
